@@ -40,8 +40,8 @@ def run(ctx):
     binp = ctx.go_build("c03")
     if not binp:
         return
-    nfrag = 240 if quick else 3000
-    ngen = 50 if quick else 800
+    nfrag = 400 if quick else 4000
+    ngen = 60 if quick else 800
     rc, frows, err = ctx.jsonl([binp, "frag", "-seed", str(ctx.seed), "-n", str(nfrag)])
     if rc != 0 or not frows:
         ctx.broken.append(("harness-run", "c03 frag failed rc=%d %s" % (rc, err[-800:])))
